@@ -38,6 +38,7 @@ type NondetRec struct {
 	Kind string // bool, u8, i32, i64, u64, f64, choice
 	Var  *Term  // nil for choice
 	Val  uint64 // for choice: chosen alternative (concrete)
+	Str  string // for kind "str": a concrete string handed to the native replay
 	Lo   int64
 }
 
